@@ -360,6 +360,8 @@ Section Nested.
   Variable elist : list node -> option (list stmt).                  (* emission of a nested node list *)
   Variable wsub : list vname -> list node -> option (list vname).
   Hypothesis Hsub : forall D ns sb Db, elist ns = Some sb -> wsub D ns = Some Db -> corr evg' fp' D Db ns sb.
+  Hypothesis Htail : forall ns i u sb, elist (ns ++ [Node "" "Identity" [Some i] [u] [] []])%list = Some sb ->
+                                       tr u = tr i -> u <> "" -> elist ns = Some sb.
 
   Definition esub (g : graph) : option (list stmt) := if is_nil (g_inits g) then elist (g_nodes g) else None.
 
@@ -607,6 +609,140 @@ Section Nested.
     Qed.
   End While.
 
+  (* ---- Loop, `for` form ------------------------------------------------------------------------------------ *)
+  Lemma lookups_cons_other : forall (e : env V) x v xs, ~ In x xs -> lookups ((x, v) :: e) xs = lookups e xs.
+  Proof.
+    induction xs as [|y t IH]; intros H; [reflexivity|]. cbn [lookups lookup].
+    destruct (String.eqb y x) eqn:E; [apply String.eqb_eq in E; subst; exfalso; apply H; left; reflexivity|].
+    rewrite IH by (intros C; apply H; right; exact C). reflexivity.
+  Qed.
+
+  Lemma defs_in_names : forall ns x, In x (defs_nodes ns) -> In x (names_nodes ns).
+  Proof.
+    induction ns as [|n t IH]; intros x H; [contradiction|]. unfold defs_nodes in H. cbn [flat_map] in H.
+    apply in_app_or in H. cbn [names_nodes]. apply in_or_app. destruct H as [H|H]; [left|right; apply IH; exact H].
+    destruct n as [d o i ou a su]. cbn [n_outs] in H. cbn [names_node]. apply in_or_app. right. apply in_or_app. left. exact H.
+  Qed.
+
+  Section For.
+    Variables (D Db : list vname) (e : env V) (iv cin cout : vname) (fins fouts : list vname) (nsb tailn : list node) (sb : list stmt).
+    Hypothesis HD : scoped D.
+    Hypothesis Hcorr : corr evg' fp' (fins ++ iv :: D)%list Db nsb sb.
+    Hypothesis Hnd : nodupb (iv :: cin :: fins) = true.
+    Hypothesis Hiv : iv <> "" /\ In iv NN /\ ~ In iv D.
+    Hypothesis Hcin : ~ In cin D.
+    Hypothesis Hfins : forall o, In o fins -> o <> "" /\ In o NN /\ ~ In o D.
+    Hypothesis Houts : forall o, In o fouts -> In o Db.
+    Hypothesis Hlen : List.length fouts = List.length fins.
+    Hypothesis Hndt : nodupb (map tr fins) = true.
+    Hypothesis Hseq : seqok (map tr fins) (map tr fouts).
+    Hypothesis Hcin_nsb : ~ In cin (names_nodes nsb).
+    Hypothesis Hcout_fouts : ~ In cout fouts.
+    Hypothesis Htl : (tailn = [] /\ cout = cin) \/ tailn = [Node "" "Identity" [Some cin] [cout] [] []].
+
+    Let body := Graph (iv :: cin :: fins) [] (nsb ++ tailn)%list (cout :: fouts).
+    Let inner := (sb ++ assigns (map tr fins) (map tr fouts))%list.
+
+    Lemma for_body_env : forall (pe : penv) st a b, Inv D e pe -> pvals pe (map tr fins) = Some st ->
+      exists e0, Sem.bind (iv :: cin :: fins) (a :: b :: st) e = Some e0 /\ Inv (fins ++ iv :: D)%list e0 ((tr iv, PT V a) :: pe) /\
+                 (forall x, In x D -> lookup e0 x = lookup e x) /\ lookup e0 cin = Some b.
+    Proof.
+      intros pe st a b HI Hp.
+      assert (Hl : List.length fins = List.length st) by (rewrite (pvals_length V pe _ _ Hp), map_length; reflexivity).
+      destruct (bind_some_length fins st e Hl) as [e1 E1].
+      exists ((iv, a) :: (cin, b) :: e1). cbn [Sem.bind]. rewrite E1. cbn [option_map]. split; [reflexivity|].
+      apply nodupb_cons in Hnd. destruct Hnd as [Hn1 Hn2]. apply nodupb_cons in Hn2. destruct Hn2 as [Hn2 Hn3].
+      destruct Hiv as (Hiv1 & Hiv2 & Hiv3).
+      assert (I1 : Inv (fins ++ D)%list e1 pe).
+      { eapply inv_extend with (pe := pe); try eassumption. intros; reflexivity. }
+      assert (Hcin_iv : cin <> iv) by (intros C; apply Hn1; left; exact C).
+      split; [|split].
+      - intros x Hx. apply in_app_or in Hx.
+        assert (Hcase : x = iv \/ In x (fins ++ D)%list).
+        { destruct Hx as [Hx|[Hx|Hx]]; [right; apply in_or_app; left; exact Hx | left; symmetry; exact Hx | right; apply in_or_app; right; exact Hx]. }
+        destruct Hcase as [->|Hx'].
+        + exists a. cbn [lookup plookup]. rewrite String.eqb_refl. rewrite String.eqb_refl. split; reflexivity.
+        + destruct (I1 x Hx') as (v & L & P). exists v.
+          assert (Hx_iv : x <> iv).
+          { intros C. subst x. apply in_app_or in Hx'. destruct Hx' as [C|C]; [apply Hn1; right; exact C|contradiction]. }
+          assert (Hx_cin : x <> cin).
+          { intros C. subst x. apply in_app_or in Hx'. destruct Hx' as [C|C]; contradiction. }
+          assert (HxN : x <> "" /\ In x NN).
+          { apply in_app_or in Hx'. destruct Hx' as [C|C]; [destruct (Hfins x C) as (A & B & _); split; assumption|destruct (HD x C); split; assumption]. }
+          split.
+          * cbn [lookup]. apply String.eqb_neq in Hx_iv. apply String.eqb_neq in Hx_cin. rewrite Hx_iv, Hx_cin. exact L.
+          * cbn [plookup]. destruct (String.eqb (tr x) (tr iv)) eqn:E; [|exact P].
+            apply String.eqb_eq in E. exfalso. apply Hx_iv. apply tr_inj; tauto.
+      - intros x Hx. cbn [lookup].
+        destruct (String.eqb x iv) eqn:E1'; [apply String.eqb_eq in E1'; subst; contradiction|].
+        destruct (String.eqb x cin) eqn:E2'; [apply String.eqb_eq in E2'; subst; contradiction|].
+        apply (bind_lookup_other V fins st e e1 x E1). intros C. destruct (Hfins x C) as (_ & _ & H3). contradiction.
+      - cbn [lookup]. apply String.eqb_neq in Hcin_iv. rewrite Hcin_iv, String.eqb_refl. reflexivity.
+    Qed.
+
+    Lemma for_body_step : forall (pe : penv) st i, Inv D e pe -> pvals pe (map tr fins) = Some st ->
+      match eval_body evg' e body (of_nat i :: of_bool true :: st) with
+      | None => exec_block (S fp') inner ((tr iv, PT V (of_nat i)) :: pe) = None
+      | Some r => exists st' pe', r = of_bool true :: st' /\ List.length st' = List.length st /\
+                    exec_block (S fp') inner ((tr iv, PT V (of_nat i)) :: pe) = Some (ONormal V pe') /\
+                    Inv D e pe' /\ pvals pe' (map tr fins) = Some st'
+      end.
+    Proof.
+      intros pe st i HI Hp.
+      destruct (for_body_env pe st (of_nat i) (of_bool true) HI Hp) as (e0 & E0 & I0 & F0 & C0).
+      unfold Sem.eval_body, body. cbn [g_ins g_nodes g_outs]. rewrite E0.
+      destruct Hcorr as (Hsc & Hincl & Hrun).
+      assert (HD' : scoped (fins ++ iv :: D)%list).
+      { apply scoped_app; [|intros o Ho; destruct (Hfins o Ho) as (A & B & _); split; assumption].
+        intros x [ <- | Hx ]; [destruct Hiv as (A & B & _); split; assumption|apply HD; exact Hx]. }
+      specialize (Hrun e0 _ (assigns (map tr fins) (map tr fouts)) I0 HD'). fold inner in Hrun.
+      rewrite (run_app V sem truth trip of_nat of_bool limit).
+      destruct (run evg' e0 nsb) as [eb|] eqn:Er; [|exact Hrun].
+      destruct Hrun as (peb & X & Ib & Fb).
+      destruct (inv_pvals Db eb peb fouts Ib Houts) as (vs & L1 & L2).
+      (* the condition is still the one passed in *)
+      assert (Lc : lookup eb cin = Some (of_bool true)).
+      { destruct (run_shape V sem truth trip of_nat of_bool limit evg' nsb e0 eb Er) as (b & -> & Hb).
+        rewrite lookup_app_other; [exact C0|]. intros C. apply Hcin_nsb. apply defs_in_names. apply Hb. exact C. }
+      assert (Lall : match run evg' eb tailn with Some e2 => lookups e2 (cout :: fouts) | None => None end = Some (of_bool true :: vs)).
+      { destruct Htl as [[Ht1 Ht2]|Ht1]; [rewrite Ht1, Ht2|rewrite Ht1].
+        - cbn [Sem.run lookups]. rewrite Lc, L1. reflexivity.
+        - cbn [Sem.run]. unfold Sem.eval_node. change (is_if "" "Identity") with false. change (is_loop "" "Identity") with false. cbv iota.
+          cbn [lookup_opts]. rewrite Lc. cbn [option_map]. rewrite sem_identity. cbn [Sem.bind option_map lookups lookup].
+          rewrite String.eqb_refl. rewrite lookups_cons_other by exact Hcout_fouts. rewrite L1. reflexivity. }
+      rewrite Lall.
+      destruct (assigns_exec V sem truth trip of_nat limit globals (map tr fins) (map tr fouts) vs fp' [] peb L2) as (pe' & X2 & P2 & F2).
+      { rewrite !map_length. symmetry. exact Hlen. }
+      { exact Hndt. }
+      { exact Hseq. }
+      rewrite app_nil_r in X2.
+      exists vs, pe'. split; [reflexivity|]. split.
+      { rewrite (pvals_length V peb _ _ L2), (pvals_length V pe _ _ Hp), !map_length. exact Hlen. }
+      split; [rewrite X; rewrite X2; reflexivity|]. split; [|exact P2].
+      intros x Hx. destruct (HI x Hx) as (v & Lx & Px). exists v. split; [exact Lx|].
+      rewrite F2 by exact (not_in_tr D fins x HD Hx Hfins).
+      assert (HxDb : In x (fins ++ iv :: D)%list) by (apply in_or_app; right; right; exact Hx).
+      destruct (Ib x (Hincl x HxDb)) as (w & Lw & Pw). rewrite Pw. rewrite (Fb x HxDb), (F0 x Hx), Lx in Lw. inversion Lw; reflexivity.
+    Qed.
+
+    Lemma for_corr : forall k i st (pe : penv),
+      Inv D e pe -> pvals pe (map tr fins) = Some st ->
+      match loop_iter (eval_body evg') e body true k i true st with
+      | None => for_iter (S fp') (tr iv) inner k i pe = None
+      | Some stf => exists pe', for_iter (S fp') (tr iv) inner k i pe = Some (ONormal V pe') /\
+                                Inv D e pe' /\ pvals pe' (map tr fins) = Some stf
+      end.
+    Proof.
+      induction k as [|k IH]; intros i st pe HI Pf.
+      - cbn [Sem.loop_iter negb]. exists pe. split; [reflexivity|]. split; assumption.
+      - cbn [Sem.loop_iter negb]. rewrite for_iter_S.
+        pose proof (for_body_step pe st i HI Pf) as B.
+        destruct (eval_body evg' e body (of_nat i :: of_bool true :: st)) as [r|]; [|rewrite B; reflexivity].
+        destruct B as (st' & pe' & -> & Hl & X & I' & Pf'). rewrite X. rewrite Hl, Nat.eqb_refl. rewrite truth_of_bool.
+        exact (IH (S i) st' pe' I' Pf').
+    Qed.
+  End For.
+
   Lemma present_all : forall (l : list (option vname)), List.length (present l) = List.length l ->
     l = map Some (present l) /\ map tvo l = map tr (present l).
   Proof.
@@ -625,12 +761,12 @@ Section Nested.
   Qed.
 
   Lemma while_step : forall D dom ins outs attrs subs ss Dn,
-    wf_loop rename rm NN wsub D dom ins outs attrs subs = Some Dn ->
+    wf_while rename rm NN wsub D dom ins outs attrs subs = Some Dn ->
     emit_loop rename infun None rm [] esub ins outs attrs subs = Some ss ->
     node_corr D Dn (Node dom "Loop" ins outs attrs subs) ss /\ Dn = (outs ++ D)%list /\ (forall o, In o outs -> o <> "" /\ In o NN).
   Proof.
     intros D dom ins outs attrs subs ss Dn Hw He.
-    unfold wf_loop in Hw.
+    unfold wf_while in Hw.
     destruct ins as [|[?|] [|[c|] actual]]; try discriminate. destruct attrs; [|discriminate].
     destruct subs as [|[bn [[|iv [|cin fins]] [|? ?] nsb [|cout fouts]]] [|? ?]]; try discriminate.
     match type of Hw with (if ?b then _ else _) = _ => destruct b eqn:Hc; [|discriminate] end.
@@ -734,6 +870,141 @@ Section Nested.
     - intros x Hx. apply (bind_lookup_other V outs stf e e' x Eb). intros C. destruct (Houts x C) as (_ & _ & H3). contradiction.
   Qed.
 
+  Lemma split_tail_spec : forall cin cout nodes nsb, split_tail cin cout nodes = Some nsb ->
+    (nodes = nsb /\ cout = cin) \/ nodes = (nsb ++ [Node "" "Identity" [Some cin] [cout] [] []])%list.
+  Proof.
+    intros cin cout nodes nsb H. unfold split_tail in H. destruct (String.eqb cout cin) eqn:E.
+    - left. apply String.eqb_eq in E. inversion H. split; [reflexivity|exact E].
+    - right. destruct (rev nodes) as [|[d o [|[i|] [|? ?]] [|u [|? ?]] [|? ?] [|? ?]] r] eqn:Er; try discriminate.
+      destruct (String.eqb d "" && String.eqb o "Identity" && String.eqb i cin && String.eqb u cout) eqn:C; [|discriminate].
+      inversion H; subst nsb. clear H.
+      apply andb_true_iff in C. destruct C as [C C4]. apply andb_true_iff in C. destruct C as [C C3]. apply andb_true_iff in C. destruct C as [C1 C2].
+      apply String.eqb_eq in C1, C2, C3, C4. subst d o i u.
+      rewrite <- (rev_involutive nodes), Er. reflexivity.
+  Qed.
+
+  Lemma for_step : forall D dom ins outs attrs subs ss Dn,
+    wf_for rename rm NN wsub D dom ins outs attrs subs = Some Dn ->
+    emit_loop rename infun None rm [] esub ins outs attrs subs = Some ss ->
+    node_corr D Dn (Node dom "Loop" ins outs attrs subs) ss /\ Dn = (outs ++ D)%list /\ (forall o, In o outs -> o <> "" /\ In o NN).
+  Proof.
+    intros D dom ins outs attrs subs ss Dn Hw He.
+    unfold wf_for in Hw.
+    destruct ins as [|[m|] [|[?|] actual]]; try discriminate. destruct attrs; [|discriminate].
+    destruct subs as [|[bn [[|iv [|cin fins]] [|? ?] nodes [|cout fouts]]] [|? ?]]; try discriminate.
+    destruct (split_tail cin cout nodes) as [nsb|] eqn:Est; [|discriminate].
+    match type of Hw with (if ?b then _ else _) = _ => destruct b eqn:Hc; [|discriminate] end.
+    destruct (wsub (fins ++ iv :: D)%list nsb) as [Db|] eqn:Ew; [|discriminate].
+    match type of Hw with (if ?b then _ else _) = _ => destruct b eqn:Hob; [|discriminate] end.
+    inversion Hw; subst Dn. clear Hw.
+    apply andb_true_iff in Hob. destruct Hob as [Hob Hcd].
+    apply andb_true_iff in Hc; destruct Hc as [Hc Q25].
+    apply andb_true_iff in Hc; destruct Hc as [Hc Q24].
+    apply andb_true_iff in Hc; destruct Hc as [Hc Q23].
+    apply andb_true_iff in Hc; destruct Hc as [Hc Q22].
+    apply andb_true_iff in Hc; destruct Hc as [Hc Q21].
+    apply andb_true_iff in Hc; destruct Hc as [Hc Q20].
+    apply andb_true_iff in Hc; destruct Hc as [Hc Q19].
+    apply andb_true_iff in Hc; destruct Hc as [Hc Q18].
+    apply andb_true_iff in Hc; destruct Hc as [Hc Q17].
+    apply andb_true_iff in Hc; destruct Hc as [Hc Q16].
+    apply andb_true_iff in Hc; destruct Hc as [Hc Q15].
+    apply andb_true_iff in Hc; destruct Hc as [Hc Q14].
+    apply andb_true_iff in Hc; destruct Hc as [Hc Q13].
+    apply andb_true_iff in Hc; destruct Hc as [Hc Q12].
+    apply andb_true_iff in Hc; destruct Hc as [Hc Q11].
+    apply andb_true_iff in Hc; destruct Hc as [Hc Q10].
+    apply andb_true_iff in Hc; destruct Hc as [Hc Q9].
+    apply andb_true_iff in Hc; destruct Hc as [Hc Q8].
+    apply andb_true_iff in Hc; destruct Hc as [Hc Q7].
+    apply andb_true_iff in Hc; destruct Hc as [Hc Q6].
+    apply andb_true_iff in Hc; destruct Hc as [Hc Q5].
+    apply andb_true_iff in Hc; destruct Hc as [Hc Q4].
+    apply andb_true_iff in Hc; destruct Hc as [Hc Q3].
+    apply andb_true_iff in Hc; destruct Hc as [Hc Q2].
+    apply String.eqb_eq in Hc. subst dom. apply String.eqb_eq in Q2. subst bn.
+    apply Nat.eqb_eq in Q4, Q6, Q7, Q8. apply memb_In in Q19. apply String.eqb_eq in Q23.
+    pose proof (freshb_all D outs Q13) as Houts. pose proof (freshb_all D fins Q12) as Hfins. pose proof (freshb_spec D iv Q10) as Hiv.
+    assert (Hcin : ~ In cin D) by (apply memb_false_In; apply negb_true_iff; exact Q11).
+    assert (Hcin_nsb : ~ In cin (names_nodes nsb)) by (apply memb_false_In; apply negb_true_iff; exact Q24).
+    assert (Hcout_fouts : ~ In cout fouts) by (apply memb_false_In; apply negb_true_iff; exact Q25).
+    split; [|split; [reflexivity|intros o Ho; destruct (Houts o Ho) as (A1 & A2 & _); split; assumption]].
+    destruct (present_all actual Q4) as [Eact Etvo].
+    set (acts := present actual) in *.
+    assert (Hne_fins : forallb nonempty fins = true) by (eapply freshb_nonempty; exact Q12).
+    assert (Hne_outs : forallb nonempty outs = true) by (eapply freshb_nonempty; exact Q13).
+    rewrite (map_tv_tr fins Hne_fins) in *. rewrite (map_tv_tr outs Hne_outs) in *. rewrite (map_tv_tr fouts Q15) in *.
+    rewrite Etvo in *.
+    (* the emitted statements *)
+    unfold emit_loop in He. cbn [assigns_n assigns_o src_o src_n] in He.
+    destruct (loop_form_of (Some m :: None :: actual) (Graph (iv :: cin :: fins) [] nodes (cout :: fouts))) as [[| | |]|] eqn:Ef; try discriminate Q3.
+    cbn [g_ins g_outs] in He. unfold esub in He. cbn [g_inits g_nodes is_nil] in He.
+    destruct (elist nodes) as [sb|] eqn:Eel; [|discriminate].
+    destruct infun; [|discriminate].
+    change (has_in (Some m :: None :: actual) 1) with false in He. cbv iota in He.
+    change (skipn 2 (Some m :: None :: actual)) with actual in He.
+    replace (List.length (Some m :: None :: actual) - 2) with (List.length actual) in He by (cbn [List.length]; lia).
+    rewrite <- Q7 in He at 1. rewrite firstn_all in He. rewrite <- Q8 in He. rewrite firstn_all in He.
+    rewrite (map_tv_tr fins Hne_fins), (map_tv_tr outs Hne_outs), (map_tv_tr fouts Q15), Etvo in He.
+    cbn [app tvo] in He. inversion He; subst ss. clear He.
+    (* the body's nodes and the pass-through *)
+    assert (Hel : elist nsb = Some sb /\ exists tailn, nodes = (nsb ++ tailn)%list /\
+                  ((tailn = [] /\ cout = cin) \/ tailn = [Node "" "Identity" [Some cin] [cout] [] []])).
+    { destruct (split_tail_spec cin cout nodes nsb Est) as [[E1 E2]|E1].
+      - subst nodes. split; [exact Eel|]. exists []. split; [rewrite app_nil_r; reflexivity|left; split; [reflexivity|exact E2]].
+      - subst nodes. split.
+        + apply (Htail nsb cin cout sb Eel Q23). apply nonempty_true. exact Q16.
+        + eexists. split; [reflexivity|right; reflexivity]. }
+    destruct Hel as (Eel' & tailn & Enodes & Htl). subst nodes.
+    pose proof (Hsub (fins ++ iv :: D)%list nsb sb Db Eel' Ew) as Hcorr.
+    intros e pe rest HI HD.
+    (* graph side *)
+    unfold Sem.eval_node. change (is_if "" "Loop") with false. change (is_loop "" "Loop") with true. cbv iota.
+    change (find_sub "body" [("body", Graph (iv :: cin :: fins) [] (nsb ++ tailn)%list (cout :: fouts))])
+      with (Some (Graph (iv :: cin :: fins) [] (nsb ++ tailn)%list (cout :: fouts))).
+    cbv iota. cbn [lookup_opts].
+    rewrite forallb_forall in Q5.
+    destruct (inv_pvals D e pe (m :: acts) HI) as (vs0 & L0 & P0).
+    { intros o [ <- | Ho ]; [exact Q19|]. apply memb_In. apply Q5. exact Ho. }
+    cbn [lookups] in L0. destruct (lookup e m) as [mv|] eqn:Lm; [|discriminate].
+    destruct (lookups e acts) as [st0|] eqn:Ls; [|discriminate]. inversion L0; subst vs0. clear L0.
+    cbn [option_map]. fold acts. rewrite Ls.
+    cbn [map EmitCFProofs.pvals] in P0. destruct (plookup V pe (tr m)) as [[mv'|? ?]|] eqn:Pm; try discriminate.
+    destruct (pvals pe (map tr acts)) as [st0'|] eqn:Pa; [|discriminate]. inversion P0; subst mv' st0'. clear P0.
+    (* Python: the assignments before the loop *)
+    rewrite <- !app_assoc.
+    destruct (assigns_exec V sem truth trip of_nat limit globals (map tr fins) (map tr acts) st0 (S fp')
+                ((SFor (tr iv) (EVar (tr m)) (sb ++ assigns (map tr fins) (map tr fouts)) :: assigns (map tr outs) (map tr fins)) ++ rest)%list pe Pa)
+      as (pe1 & X1 & P1 & F1).
+    { rewrite !map_length. rewrite Q4, Q6. reflexivity. }
+    { exact Q20. }
+    { apply seqokb_sound. exact Q21. }
+    cbn [app] in X1. cbn [app]. rewrite X1. clear X1.
+    assert (I1 : Inv D e pe1).
+    { intros x Hx. destruct (HI x Hx) as (v & Lx & Px). exists v. split; [exact Lx|]. rewrite F1; [exact Px|].
+      exact (not_in_tr D fins x HD Hx Hfins). }
+    rewrite (exec_block_for V sem truth trip of_nat limit globals).
+    assert (Pm1 : plookup V pe1 (tr m) = Some (PT V mv)).
+    { rewrite F1; [exact Pm|]. exact (not_in_tr D fins m HD Q19 Hfins). }
+    rewrite (eval_var_bound V sem globals pe1 (tr m) _ Pm1). cbn [ptrip].
+    destruct (trip mv) as [k|]; [|reflexivity]. cbn [option_map].
+    assert (Hob' : forall o, In o fouts -> In o Db) by (intros o Ho; apply memb_In; rewrite forallb_forall in Hob; apply Hob; exact Ho).
+    pose proof (for_corr D Db e iv cin cout fins fouts nsb tailn sb HD Hcorr Q9 Hiv Hcin Hfins Hob' (eq_trans Q7 (eq_sym Q6)) Q20
+                  (seqokb_sound _ _ Q22) Hcin_nsb Hcout_fouts Htl k 0 st0 pe1 I1 P1) as W.
+    destruct (loop_iter (eval_body evg') e (Graph (iv :: cin :: fins) [] (nsb ++ tailn)%list (cout :: fouts)) true k 0 true st0) as [stf|]; [|rewrite W; reflexivity].
+    destruct W as (pe2 & X2 & I2 & P2). rewrite X2. cbn [oseq].
+    assert (Hlf : List.length outs = List.length stf).
+    { rewrite (pvals_length V pe2 _ _ P2), map_length. rewrite Q8, Q6. reflexivity. }
+    destruct (bind_some_length outs stf e Hlf) as [e' Eb]. rewrite Eb.
+    destruct (assigns_exec V sem truth trip of_nat limit globals (map tr outs) (map tr fins) stf (S fp') rest pe2 P2) as (pe3 & X3 & P3 & F3).
+    { rewrite !map_length. rewrite Q8, Q6. reflexivity. }
+    { exact Q17. }
+    { apply seqokb_sound. exact Q18. }
+    exists pe3. split; [exact X3|]. split.
+    - eapply inv_extend with (pe := pe2); try eassumption.
+    - intros x Hx. apply (bind_lookup_other V outs stf e e' x Eb). intros C. destruct (Houts x C) as (_ & _ & H3). contradiction.
+  Qed.
+
   (* ---- a plain node: Export/EmitProofs.v node_step, plus the frame ---------------------------------------- *)
   Lemma plain_step : forall D n ss Dn,
     wf_plain kw rename rm NN D n = Some Dn -> emit_node kw tr n = Some ss ->
@@ -774,8 +1045,12 @@ Section Nested.
     { apply String.eqb_eq in E1. subst op. destruct (if_step D dom ins outs attrs subs ss Dn Hw He) as (A & B & C).
       split; [exact A|]. exists outs. split; assumption. }
     destruct (String.eqb op "Loop") eqn:E2.
-    { apply String.eqb_eq in E2. subst op. destruct (while_step D dom ins outs attrs subs ss Dn Hw He) as (A & B & C).
-      split; [exact A|]. exists outs. split; assumption. }
+    { apply String.eqb_eq in E2. subst op. unfold wf_loop in Hw.
+      destruct (wf_while rename rm NN wsub D dom ins outs attrs subs) as [r|] eqn:Ewh.
+      - inversion Hw; subst r. destruct (while_step D dom ins outs attrs subs ss Dn Ewh He) as (A & B & C).
+        split; [exact A|]. exists outs. split; assumption.
+      - destruct (for_step D dom ins outs attrs subs ss Dn Hw He) as (A & B & C).
+        split; [exact A|]. exists outs. split; assumption. }
     destruct (String.eqb op "Scan"); [discriminate|]. destruct (negb (is_nil subs)); [discriminate|].
     destruct (plain_step D _ ss Dn Hw He) as (A & B & C). split; [exact A|]. eexists. split; [exact B|exact C].
   Qed.
